@@ -181,6 +181,8 @@ def case_model(rng, tier, i, degen=False, force_name=None, force_mode=None, forc
     if degen and force_mode in ('big', 'small', 'fewframes', 'mixedscale') and (rng.random() < 0.6 or (i // 49) % 2 == 0):
         N = int(rng.integers(1, D + 1))          # fewer frames than channels: floored eigenvalues meet extreme scales
         # (always in the first round of the stratified stream, i.e. in every quick run, for every model)
+    if force_single and i % 2 == 0:
+        D = int(rng.integers(6, 9))        # many channels: products of floored eigenvalues leave the single-precision range
     if name in mm.INTEGRATION:
         lead = (int(rng.integers(1, 4)),)
     else:
@@ -330,8 +332,12 @@ def eval_model(rp, rng=None):
     btol = 2e-3 if single else 1e-9
     rtol = RT32 if single else RT64
     lp = np.asarray(lp, dtype=float)
-    if np.abs(aff - ref).max() > btol:
-        return ('predict(%s) differs from Bayes rule on its own log_pdf and weights by %.3g' % (name, np.abs(aff - ref).max()),
+    # (the property's precondition "every class has non-zero mass": columns in which a class has zero stored weight are
+    # outside the quantifier - a zero-weight class can dominate the maximum by more than the exp range of the precision)
+    inq = np.ones(aff.shape[:-2] + aff.shape[-1:], bool) if mass is None else np.broadcast_to(mass, aff.shape[:-2] + aff.shape[-1:])
+    bdev = np.where(inq[..., None, :], np.abs(aff - ref), 0.0)
+    if bdev.max() > btol:
+        return ('predict(%s) differs from Bayes rule on its own log_pdf and weights by %.3g' % (name, bdev.max()),
                 'model:bayes:%s' % name, coq_cols(rng, lp, w, m2, np.asarray(aff, float), 0.0, mm.tiny_of(lp), rtol), None, False)
     if rp.get('reassign') and K >= 2:
         # one model object used more than once: after new priors are stored, predict must be Bayes' rule for THOSE weights
@@ -471,9 +477,9 @@ def cases(rng, tier):
         out.append(case_model(rng, tier, i, degen=True, force_name=['gcacgmm', 'vmfcacgmm', 'cacgmm'][i % 3],
                               force_mode=['big', 'big', 'small', 'big', 'mixedscale'][(i // 3) % 5], scale_few=True))
     # single precision (observations and initial affiliation) meets silent / repeated frames in every model
-    for i in range(14 if q else 84):
-        out.append(case_model(rng, tier, i, degen=True, force_name=mm.MODELS[i % 7], force_mode=['zero', 'repeat'][(i // 7) % 2],
-                              force_single=True))
+    for i in range(28 if q else 112):
+        out.append(case_model(rng, tier, i, degen=True, force_name=mm.MODELS[i % 7],
+                              force_mode=['zero', 'repeat', 'fewframes', 'rank1'][(i // 7) % 4], force_single=True))
     for i in range(20 if q else 150):
         out.append(case_init(rng, tier, i))
     for i in range(1 if q else 4):
